@@ -12,10 +12,10 @@ TEXT = {
             "full"),
     "C02": ("Proved for every delivery list, all three framings and every header line limit a caller may set: C02_response_delivery_independent, C05_chunk_delivery_independent, C09_response_suffix_irrelevant, C04_prefix_never_rejected (the dependency's dangling-CR rule is shielded by repair F1c, which is part of the model).",
             "full"),
-    "C03": ("Proved: C03_accept_iff — for every URI implementation, limit triple and byte string the parser accepts a complete request with given fields after n bytes IFF the string is line CRLF header-block body tail with the line in the request-line grammar, the block accepted in full by the header parser, the body of the declared length, line and total within their limits (with C03_accept_complete / C03_accept_sound as the two halves). Further: soundness of acceptance for whole messages (C03_accept_sound: a completed parse implies request line, fully accepted header block, body framed by Content-Length, exact consumption and exactly extracted fields), request-line grammar in both directions (C03_request_line_sound / _complete), the six request-line rejection categories (C03_request_line_category), the prefix clause (C03_prefix_never_rejected, C03_accepted_prefix_not_rejected), the limit clauses (C08_*), digits-only Content-Length (C17). The rejection categories beyond the request line (header errors, bad Content-Length, size errors) and the well-formedness of header fields (delegated to the header parser model) rest on the correspondence check, where the model's verdict is used as the specification.",
-            "full for the accept set; categories beyond the request line by correspondence"),
-    "C04": ("Proved: C04_accept_iff — for every header line limit and byte string, completion after n bytes in a given state IFF status line in the grammar, header block accepted in full, then the body the headers select in the order Content-Length > chunked (grammar Sound of C05, state = de-chunk rewrite) > none (halves: C04_accept_complete_fixed/_chunked/_none and C04_accept_sound). Further: C04_accept_sound (status line, header block, framing precedence Content-Length > chunked > none, exact consumption, trailing data kept), C04_status_line_sound, C04_status_line_category, the four framing lemmas, C04_prefix_never_rejected, C17_status_code; Rejection categories beyond the status line by correspondence with the model as specification.",
-            "full for the accept set; categories beyond the status line by correspondence"),
+    "C03": ("Proved: C03_accept_iff — for every URI implementation, limit triple and byte string the parser accepts a complete request with given fields after n bytes IFF the string is line CRLF header-block body tail with the line in the request-line grammar, the block accepted in full by the header parser, the body of the declared length, line and total within their limits (with C03_accept_complete / C03_accept_sound as the two halves). Further: soundness of acceptance for whole messages (C03_accept_sound: a completed parse implies request line, fully accepted header block, body framed by Content-Length, exact consumption and exactly extracted fields), request-line grammar in both directions (C03_request_line_sound / _complete), the six request-line rejection categories (C03_request_line_category), the prefix clause (C03_prefix_never_rejected, C03_accepted_prefix_not_rejected), the limit clauses (C08_*), digits-only Content-Length (C17). C03_verdict: the parser equals a straight-line decision list over the elements in order, with every rejection category as a corollary (C03_cat_line_too_long, _not_text, _request_line, _header, _content_length, C03_rejected_by_block_end) and C03_proper_prefix_more. Well-formedness of header fields is delegated to the header parser model (as the property delegates it to the message-header library).",
+            "full; header-field well-formedness defined by the header parser model"),
+    "C04": ("Proved: C04_accept_iff — for every header line limit and byte string, completion after n bytes in a given state IFF status line in the grammar, header block accepted in full, then the body the headers select in the order Content-Length > chunked (grammar Sound of C05, state = de-chunk rewrite) > none (halves: C04_accept_complete_fixed/_chunked/_none and C04_accept_sound). Further: C04_accept_sound (status line, header block, framing precedence Content-Length > chunked > none, exact consumption, trailing data kept), C04_status_line_sound, C04_status_line_category, the four framing lemmas, C04_prefix_never_rejected, C17_status_code; C04_verdict: the parser equals a decision list; categories C04_cat_not_text, _status_line, _header, _content_length, _chunked and, for the chunk decoder from any state, C05_cat_size_not_text, _size_invalid, _terminator, _trailer; C04_proper_prefix_more.",
+            "full; header-field well-formedness defined by the header parser model"),
     "C05": ("Proved: C05_complete_iff — the decoder completes after n bytes IFF those bytes are a chunked body of the grammar Sound (C05_sound_complete + C05_complete_only_if_wellformed). Also, in both directions for every byte string: C05_roundtrip / C05_roundtrip_parse (every chunk list with hex sizes in any case with leading zeros, ASCII extensions, well-formed trailer fields, any tail: exactly the payload, exactly the trailers, stops at the end) and C05_complete_only_if_wellformed (completion implies the chunked structure `Sound` and that the body is exactly the chunk-data ranges), C17_chunk_size, C05_chunk_delivery_independent.",
             "full (extensions restricted to ASCII text without CR: the implementation rejects non-UTF-8 size lines)"),
     "C06": ("Proved on the model in which every trapping operation of request.rs / response.rs / chunked_body.rs is explicit, for both build profiles and every delivery list: C06_request_no_crash, C06_response_no_crash (a run never ends in a panic). generate / decode_body / decode_body_as_text and the trap sites inside the dependencies are covered by observation only (supervised execution, both profiles). Known finding KF1 (rhymessage generate, limit < 2).",
